@@ -46,7 +46,7 @@ def gen_case(rng, fmt=None):
         r = rng.random()
         if r < 0.45: ops.append('ev %d %d %s' % (rng.randrange(1, 6), rng.randrange(0, 3), gen_fields(rng)))
         elif r < 0.6 and len(stack) < 3:
-            ops.append('sp %d %d %d %s %s' % (nsp, rng.randrange(1, 6), rng.randrange(0, 3), rng.choice(['outer', 'inner', 'req', 'job']) + str(nsp), gen_fields(rng, False)))
+            ops.append('sp %d %d %d %s %s' % (nsp, rng.randrange(1, 6), rng.randrange(0, 3), hx(rng.choice(['outer', 'inner', 'req', 'job']) + str(nsp)), gen_fields(rng, False)))
             ops.append('en %d' % nsp); stack.append(nsp); nsp += 1
         elif r < 0.75 and stack:
             k = stack.pop(); ops.append('ex %d' % k); ops.append('cl %d' % k)
@@ -95,7 +95,7 @@ def judge(case, out):
             except Exception: return 'bad non-utf8-write'
         expected_names = []; level = None; fields = []
         if t[0] == 'ev': level = int(t[1]); fields = field_texts(t[3])
-        elif t[0] == 'sp': spans[int(t[1])] = (t[4], field_texts(t[5]), int(t[2])); level = int(t[2])
+        elif t[0] == 'sp': spans[int(t[1])] = (bytes.fromhex(t[4]).decode(), field_texts(t[5]), int(t[2])); level = int(t[2])
         elif t[0] in ('en', 'ex', 'cl') and int(t[1]) in spans: level = spans[int(t[1])][2]
         if t[0] == 'en' and int(t[1]) in spans: stack.append(int(t[1]))
         scope = [spans[k] for k in stack]
